@@ -455,8 +455,8 @@ func (r *run) check() (kind, detail string) {
 				return "seek-returns-wrong-data-" + tag, fmt.Sprintf("SeekStates(root of height %d, prefix %x) = %s, that state had %s; latest %d, collected up to %d", x, p, kvString(res), kvString(want), h, r.gmax)
 			}
 		}
-		// proofs under the latest root, its predecessor, the oldest retained and the newest collected root
-		if x == h || x+1 == h || x == r.gmax || x+1 == r.gmax {
+		// proofs under the root before the latest one, the oldest retained and the newest collected root
+		if x+1 == h || x == r.gmax || x+1 == r.gmax {
 			for _, k := range r.ref.probe {
 				st.proofs++
 				want, has := r.ref.maps[x][k]
